@@ -27,7 +27,7 @@ func init() {
 const c06Mod = "example.com/c06mod"
 
 var c06Pkgs = map[string]map[string]string{
-	"geom": {"g.go": "package geom\n\ntype Point struct {\n\tX uint64\n\tY uint64\n}\n\nfunc Origin() Point {\n\treturn Point{X: 0, Y: 0}\n}\n\nfunc Norm1(p Point) uint64 {\n\treturn p.X + p.Y\n}\n"},
+	"geom":    {"g.go": "package geom\n\ntype Point struct {\n\tX uint64\n\tY uint64\n}\n\nfunc Origin() Point {\n\treturn Point{X: 0, Y: 0}\n}\n\nfunc Norm1(p Point) uint64 {\n\treturn p.X + p.Y\n}\n"},
 	"usegeom": {"u.go": "package usegeom\n\nimport \"example.com/c06mod/geom\"\n\nfunc Shift(p geom.Point, d uint64) geom.Point {\n\treturn geom.Point{X: p.X + d, Y: p.Y}\n}\n\nfunc GetX(p *geom.Point) uint64 {\n\treturn p.X\n}\n"},
 	"forward": {"a.go": "package forward\n\nfunc Top() uint64 {\n\treturn helperB() + helperA() + helperC()\n}\n", "z.go": "package forward\n\nfunc helperA() uint64 {\n\treturn 1\n}\n\nfunc helperB() uint64 {\n\treturn 2\n}\n\nfunc helperC() uint64 {\n\treturn helperA() + 3\n}\n"},
 	"failing": {"f.go": "package failing\n\nfunc Fine() uint64 {\n\treturn 1\n}\n\nfunc Bad(x uint64) uint64 {\n\tswitch x {\n\tcase 1:\n\t\treturn 1\n\t}\n\treturn 2\n}\n\nfunc AlsoBad(x uint64) uint64 {\n\tdefer func() {}()\n\treturn x\n}\n"},
@@ -209,6 +209,8 @@ func C06(c *ev.Ctx) {
 			c.Report("c06.two-ffi-panic-kills-run", fmt.Sprintf("goose ./plain ./twoffi: the package reaching two FFIs makes the whole run abort (exit %d, plain.v written: %v): one package influences the others\n%s", code, statErr == nil, firstLines(out, 5)), nil)
 		}
 	}
+	cli := c06CLI(c, root, names)
+	c.Set("cli_runs_over_prior_output_states", cli)
 	c.Set("runs", run)
 	c.Set("evaluations", run)
 	c.Set("distinct_nontrivial", run-len(names))
@@ -324,4 +326,99 @@ func raceTranslateChild(args []string) int {
 	}
 	fmt.Printf("RACE-DRIVER-DONE %d translations of %d packages under -race\n", n, len(names))
 	return 0
+}
+
+// c06CLI: the files the command leaves behind are a function of the sources alone, whatever the output directory
+// contained before: absent, identical, a longer file that starts with the new content, a shorter prefix of it,
+// unrelated bytes, or the translation of an earlier version of the same package (with more / fewer declarations).
+func c06CLI(c *ev.Ctx, root string, names []string) int {
+	fresh := filepath.Join(c.Scratch, "c06cli-fresh")
+	_ = os.RemoveAll(fresh)
+	var pats []string
+	for _, p := range names {
+		if p != "failing" {
+			pats = append(pats, "./"+p)
+		}
+	}
+	if out, code := runGooseCLI(c, root, fresh, pats...); code != 0 {
+		c.Inconclusive("goose CLI on the C06 module: exit %d\n%s", code, firstLines(out, 6))
+		return 0
+	}
+	ref := map[string][]byte{}
+	_ = filepath.Walk(fresh, func(pp string, info os.FileInfo, err error) error {
+		if err == nil && !info.IsDir() {
+			b, _ := os.ReadFile(pp)
+			rel, _ := filepath.Rel(fresh, pp)
+			ref[rel] = b
+		}
+		return nil
+	})
+	if len(ref) != len(pats) {
+		c.Inconclusive("expected %d output files, found %d", len(pats), len(ref))
+		return 0
+	}
+	runs := 0
+	compare := func(out, what string) {
+		runs++
+		for rel, want := range ref {
+			got, err := os.ReadFile(filepath.Join(out, rel))
+			if err != nil || !bytes.Equal(got, want) {
+				c.Violation("c06.output-depends-on-prior-state", fmt.Sprintf("same sources, different file: %s after %s differs from the file a fresh output directory gets (%d vs %d bytes)", rel, what, len(got), len(want)),
+					map[string]string{"got.v": string(got), "want.v": string(want)})
+				return
+			}
+		}
+	}
+	states := map[string]func(b []byte) []byte{
+		"an identical file": func(b []byte) []byte { return b },
+		"a longer file starting with the new content": func(b []byte) []byte {
+			return append(append([]byte{}, b...), []byte("\nDefinition stale: val :=\n  rec: \"stale\" <> :=\n    #0.\n")...)
+		},
+		"a proper prefix of the new content": func(b []byte) []byte { return b[:len(b)/2] },
+		"unrelated bytes of the same length": func(b []byte) []byte { return bytes.Repeat([]byte("x"), len(b)) },
+		"an empty file":                      func(b []byte) []byte { return nil },
+	}
+	for what, f := range states {
+		out := filepath.Join(c.Scratch, "c06cli-prior")
+		_ = os.RemoveAll(out)
+		for rel, b := range ref {
+			_ = os.MkdirAll(filepath.Dir(filepath.Join(out, rel)), 0755)
+			_ = os.WriteFile(filepath.Join(out, rel), f(b), 0644)
+		}
+		if o, code := runGooseCLI(c, root, out, pats...); code != 0 {
+			c.Violation("c06.output-depends-on-prior-state", fmt.Sprintf("goose exits %d when the output directory already holds %s\n%s", code, what, firstLines(o, 5)), nil)
+			continue
+		}
+		compare(out, "the output directory held "+what)
+	}
+	// earlier versions of the sources: a trailing declaration more, then removed again (the new output is a prefix of
+	// the old one for packages with an FFI prelude, whose footer is empty)
+	extra := "\nfunc ExtraTail() uint64 {\n\treturn 77\n}\n"
+	out := filepath.Join(c.Scratch, "c06cli-hist")
+	_ = os.RemoveAll(out)
+	last := map[string]string{}
+	for _, p := range names {
+		fs := c06Pkgs[p]
+		var fns []string
+		for n := range fs {
+			fns = append(fns, n)
+		}
+		sort.Strings(fns)
+		last[p] = fns[len(fns)-1]
+		_ = os.WriteFile(filepath.Join(root, p, last[p]), []byte(fs[last[p]]+extra), 0644)
+	}
+	o1, code1 := runGooseCLI(c, root, out, pats...)
+	for _, p := range names {
+		_ = os.WriteFile(filepath.Join(root, p, last[p]), []byte(c06Pkgs[p][last[p]]), 0644)
+	}
+	if code1 != 0 {
+		c.Inconclusive("goose CLI on the edited C06 module: exit %d\n%s", code1, firstLines(o1, 6))
+		return runs
+	}
+	if o, code := runGooseCLI(c, root, out, pats...); code != 0 {
+		c.Violation("c06.output-depends-on-prior-state", fmt.Sprintf("goose exits %d on the restored sources\n%s", code, firstLines(o, 5)), nil)
+	} else {
+		compare(out, "an earlier version of every package (one more trailing declaration) had been translated into the same directory")
+	}
+	return runs
 }
